@@ -508,6 +508,7 @@ pub fn coordinator(check: &Check, tier: Tier, seed: u64) -> i32 {
     let mut distinct = 0u64;
     let mut nontrivial = 0u64;
     let mut harness_errors: Vec<String> = vec![];
+    let mut crashes: Vec<(u64, i32)> = vec![];
     let mut failures: BTreeMap<u64, (String, Value, Value)> = BTreeMap::new();
     for (w, mut child) in procs.into_iter().enumerate() {
         let mut buf = vec![];
@@ -552,7 +553,16 @@ pub fn coordinator(check: &Check, tier: Tier, seed: u64) -> i32 {
                     );
                 }
             }
-            _ => harness_errors.push(format!("worker {w} died (wait status {status:#x})")),
+            _ => {
+                use std::os::unix::process::ExitStatusExt;
+                // a worker killed by a signal while it runs the real code (abort after a panic inside a
+                // destructor, stack overflow, segfault) is a finding about that code: reported as a violation
+                // whose replay file re-runs the worker's slice of cases
+                match st.signal() {
+                    Some(sig) => crashes.push((w as u64, sig)),
+                    None => harness_errors.push(format!("worker {w} died (wait status {status:#x})")),
+                }
+            }
         }
     }
     agg.distinct_total = distinct;
@@ -566,6 +576,21 @@ pub fn coordinator(check: &Check, tier: Tier, seed: u64) -> i32 {
     if agg.invalid > 0 {
         eprintln!("l1: HARNESS ERROR: {} generated cases were rejected as malformed by their own scenario", agg.invalid);
         return 2;
+    }
+    if let Some((w, sig)) = crashes.first() {
+        let file = json!({
+            "property": check.property, "level": "L1", "scenario": "worker-slice", "class": "crash",
+            "message": format!("the process running the cases of worker {w} was killed by signal {sig} (an abort inside the code under test, e.g. a panic in a destructor during unwinding)"),
+            "crash": {"tier": tier.as_str(), "seed": seed, "worker": w, "workers": workers},
+            "case": Value::Null, "decisions": [], "case_index": 0,
+        });
+        let dir = root.join("replays");
+        let _ = std::fs::create_dir_all(&dir);
+        let path = dir.join(format!("{}-L1-{seed}.json", check.property));
+        let _ = std::fs::write(&path, serde_json::to_string_pretty(&file).unwrap_or_default());
+        println!("l1: violation class=crash scenario=worker-slice — {}", file["message"].as_str().unwrap_or(""));
+        println!("VIOLATION property={} replay={}", check.property, path.display());
+        return 1;
     }
     for (sig, text) in &agg.known_hits {
         println!("KNOWN-FINDING: property={} signature={sig} {text}", check.property);
@@ -785,6 +810,18 @@ pub fn replay(checks: &[Check], path: &str, log: bool) -> i32 {
         eprintln!("l1: unknown property {prop}");
         return 2;
     };
+    if v["class"] == json!("crash") {
+        // re-run the worker's slice in this process: the crash kills it again (that is the reproduction)
+        let c = &v["crash"];
+        let tier = Tier::parse(c["tier"].as_str().unwrap_or("quick")).unwrap_or(Tier::Quick);
+        println!("replay of {path}: re-running worker {} of {} (seed {}); a crash of this process reproduces the violation", c["worker"], c["workers"], c["seed"]);
+        println!("VIOLATION property={prop} replay={path}");
+        use std::io::Write;
+        std::io::stdout().flush().ok();
+        let _ = worker_main(check, tier, c["seed"].as_u64().unwrap_or(0), c["worker"].as_u64().unwrap_or(0), c["workers"].as_u64().unwrap_or(16), &[]);
+        println!("replay of {path}: the slice completed without a crash this time");
+        return 0;
+    }
     let Some(scn) = check.scenario(v["scenario"].as_str().unwrap_or("")) else {
         eprintln!("l1: unknown scenario");
         return 2;
